@@ -123,7 +123,7 @@ func clampUint(tag string, v uint64) uint64 {
 
 // genGoVal draws from every Go value class of §3.6 (all JSON-representable).
 func genGoVal(rt *rapid.T, label string, depth int) sim.Val {
-	switch rapid.IntRange(0, 14).Draw(rt, label+".goclass") {
+	switch rapid.IntRange(0, 15).Draw(rt, label+".goclass") {
 	case 0:
 		tag := rapid.SampledFrom(intTags).Draw(rt, label+".itag")
 		v := rapid.SampledFrom([]int64{0, 1, -1, 127, -128, 32767, 1 << 31, -(1 << 31), 1<<53 + 1, math.MaxInt64, math.MinInt64, 42}).Draw(rt, label+".ival")
@@ -167,6 +167,15 @@ func genGoVal(rt *rapid.T, label string, depth int) sim.Val {
 			return sim.Val{T: "f64array", L: []sim.Val{sim.F(float64(rapid.IntRange(-3, 3).Draw(rt, label+".a0"))), sim.F(1.5)}}
 		}
 		return sim.Val{T: "bytearray", U: uint64(rapid.IntRange(0, 1<<24-1).Draw(rt, label+".ba"))}
+	case 11:
+		// types whose JSON encoding is not their Go shape: time.Time (a string), big.Int (a number),
+		// json.RawMessage (the JSON it holds), maps with integer keys (keys become strings), structs containing them
+		tag := rapid.SampledFrom([]string{"time", "*time", "intkeymap", "rawjson", "bigint", "timestruct"}).Draw(rt, label+".enctag")
+		v := sim.Val{T: tag, I: int64(rapid.SampledFrom([]int{0, 1, 1700000000, 86399}).Draw(rt, label+".encval")), S: genString(rt, label+".encstr")}
+		if rapid.Bool().Draw(rt, label+".encnested") {
+			return sim.Obj(sim.KV{K: "a", V: v}, sim.KV{K: "z", V: genPrim(rt, label+".encafter")})
+		}
+		return v
 	case 10:
 		// the special values as members / elements of an ordinary container
 		sp := []sim.Val{{T: "nilslice"}, {T: "nilmap"}, {T: "bytes", S: "\x01\x02"}, {T: "f64array", L: []sim.Val{sim.F(2), sim.F(3)}}, {T: "bytearray", U: 0x030201}}
